@@ -351,7 +351,48 @@ fn case_json(m: usize, ties: bool, choices: &[usize]) -> Value {
     json!({"leg":"spec-loop","max_speculative":m,"ties":ties,"choices":choices})
 }
 
+const EXTREME_MAX: [usize; 4] = [usize::MAX, usize::MAX - 1, u32::MAX as usize, 1usize << 40];
+
+/// Child mode `--probe-extreme <max>`: the fixed schedules for one extreme max count, in a process of their own (a driver
+/// that sizes an allocation by the count aborts the process; the parent observes that as a result). Exit 0 = held,
+/// 3 = oracle complaint on stdout.
+fn probe_child(m: usize) -> ! {
+    vcore::quiet_panics();
+    vcore::sandbox::limit_address_space(8 << 30);
+    for c in [3usize, 4, 2] {
+        let out = one_execution_k(m, false, &mut Chooser::new(vec![]), Knobs { zero: false, fixed: Some(c), far: None });
+        if let Some((k, t)) = out.verdict {
+            println!("{k} :: {t} | continuation={c}");
+            std::process::exit(3);
+        }
+    }
+    std::process::exit(0)
+}
+
+/// Parent side: Ok(()) if the child held, else (key, text).
+fn probe_extreme(m: usize) -> Result<(), (String, String)> {
+    let res = vcore::sandbox::run_self(&["--probe-extreme", &m.to_string()], b"", Duration::from_secs(120));
+    if res.timed_out {
+        return Err(("spec:hang".into(), format!("with max speculative count {m} a 3-tick schedule did not finish within 120 s")));
+    }
+    match (res.exit_code, res.signal) {
+        (Some(0), _) => Ok(()),
+        (Some(3), _) => {
+            let line = String::from_utf8_lossy(&res.stdout).lines().last().unwrap_or("").to_string();
+            let (k, t) = line.split_once(" :: ").unwrap_or(("spec:unknown", &line));
+            Err((k.to_string(), t.to_string()))
+        }
+        (code, sig) => Err(("spec:abort".into(), format!("with max speculative count {m} the process died (exit {code:?}, signal {sig:?}) inside the speculative loop: {}", res.stderr_tail.trim().replace('\n', " / ")))),
+    }
+}
+
 fn main() {
+    {
+        let a: Vec<String> = std::env::args().collect();
+        if let Some(i) = a.iter().position(|x| x == "--probe-extreme") {
+            probe_child(a.get(i + 1).and_then(|s| s.parse().ok()).unwrap_or(0));
+        }
+    }
     vcore::quiet_panics();
     let r = Report::new("C13", "spec-loop", "model_checking", "E-ASYNC");
     if let Err(e) = h_drv::specmodel::self_test() {
@@ -359,6 +400,13 @@ fn main() {
     }
     if let Some(case) = r.replay_case() {
         let m = case["max_speculative"].as_u64().unwrap_or(0) as usize;
+        if case["probe"].as_bool() == Some(true) {
+            if let Err((k, t)) = probe_extreme(m) {
+                println!("{t}");
+                r.violation(&k, &t, case.clone());
+            }
+            r.finish_replay();
+        }
         let ties = case["ties"].as_bool().unwrap_or(false);
         let choices: Vec<usize> = case["choices"].as_array().map(|a| a.iter().map(|v| v.as_u64().unwrap_or(0) as usize).collect()).unwrap_or_default();
         let mut ch = Chooser::new(choices);
@@ -487,7 +535,15 @@ fn main() {
     }
     // ---- extreme configurations (a handful of fixed schedules each): huge max counts ("unlimited, bounded by the plan")
     // and retry intervals whose deadline overflows. A panic inside the driver is a violation like any other.
-    for m in [usize::MAX, usize::MAX - 1, u32::MAX as usize, 1usize << 40] {
+    for m in EXTREME_MAX {
+        // first in a child process: an abort (allocation sized by the count) must not take the checker down
+        if let Err((k, t)) = probe_extreme(m) {
+            r.eval(1);
+            r.counters.add("extreme_max_probe_failed", 1);
+            r.violation(&k, &format!("{t} | max_speculative={m}"), json!({"leg":"spec-loop","probe":true,"max_speculative":m}));
+            continue;
+        }
+        r.counters.add("extreme_max_probes_ok", 1);
         // (schedules that end through an exhausted plan or a success: with an unbounded count nothing else ends the call)
         for c in [3usize, 4, 2] {
             let knobs = Knobs { zero: false, fixed: Some(c), far: None };
